@@ -51,6 +51,9 @@ class StftMonitor:
         self.rec = rec
         self.case = None
         self._H = {}
+        from ..history import ResultHistory
+
+        self.hist = ResultHistory(rec, self.v, keep=2)  # a feature matrix a caller holds on to stays what it was when the computer is used again
 
     def attach(self):
         from pydrobert.speech import compute as C
@@ -204,6 +207,8 @@ class StftMonitor:
                     self.v("default frame length %d leaves filter %d without a non-zero DFT bin (D=%d)" % (fl, fi, D), check="default_frame_length", **info)
         if not np.array_equal(np.asarray(c.args[0] if c.args else c.kwargs.get("signal")), x):
             self.v("compute_full modified its input", check="input_modified", **info)
+        if isinstance(c.result, np.ndarray):
+            self.hist.observe(comp, c.result, "STFT compute_full", **info)
         # ---- classification for the evidence
         self.rec.count("D_mod_4_eq_%d" % (D % 4))
         if want.shape[0]:
@@ -309,6 +314,17 @@ def _run_case(case, rec, mon=None):
                 comp.compute_full(x)
         except Exception:
             pass
+    if case["idx"] % 3 == 0 and len(pick):
+        # two more recordings of one length and type (fixed-length segments): the matrices the caller got before stay what they were
+        N = int(max(pick))
+        for _ in range(2):
+            x = gen.signal(rng, N, "noise" if "noise" in gen.SIGNAL_KINDS else str(rng.choice(gen.SIGNAL_KINDS)), np.float64)
+            x.setflags(write=False)
+            try:
+                comp.compute_full(x)
+            except Exception:
+                pass
+        rec.count("computers_given_several_recordings_of_one_length")
     rec.sample({"cfg": cfg, "fl": int(fl), "fs": int(fs), "lengths": [int(n) for n in pick]})
     if own:
         monitor.report(rec)
